@@ -223,6 +223,8 @@ class Check:
         self.replays_ok += 1
         if finding is not None:
             self.known_seen[finding['id']] = desc
+            if scen is not None:
+                self.save_scenario('known-' + finding['id'], scen)
         else:
             p = self.save_scenario(name, scen)
             self.violations.append((f'{name}: {desc}', p))
